@@ -110,3 +110,17 @@ let rec iter_sub (f : term -> unit) (t : term) : unit =
   | TLet (ds, b) -> List.iter (fun (a, d) -> iter_sub f a; iter_sub f d) ds; iter_sub f b
   | TNeg x -> iter_sub f x
   | TIf (c, x, y) -> iter_sub f c; iter_sub f x; iter_sub f y
+
+(* hole identity erased (evaluation copies unsolved annotation holes into fresh cells) *)
+let rec erase_holes (t : term) : term =
+  let r = erase_holes in
+  match t with
+  | THole (_, sh) -> THole (O, sh)
+  | TType | TInt | TBool | TTrue | TFalse | TLit _ | TVar _ -> t
+  | TLam (im, d, b) -> TLam (im, r d, r b)
+  | TPi (im, d, b) -> TPi (im, r d, r b)
+  | TApp (f, x) -> TApp (r f, r x)
+  | TLet (ds, b) -> TLet (List.map (fun (a, d) -> (r a, r d)) ds, r b)
+  | TNeg x -> TNeg (r x)
+  | TBin (o, x, y) -> TBin (o, r x, r y)
+  | TIf (c, x, y) -> TIf (r c, r x, r y)
